@@ -40,6 +40,17 @@ CASES = [
             'Nums(x) :- T(x, y);\nAlt(x + 10) :- Nums(x);\nBig(x * 2) :- Nums(x);\nQ(x) :- Alt(x) | Big(x);\n',
        tables={'Nums': [(1,), (1,), (2,), (0,)], 'Alt': [(11,), (11,), (12,), (10,)], 'Big': [(2,), (2,), (4,), (0,)]},
        preds={'Q': [(11,), (11,), (12,), (10,), (2,), (2,), (4,), (0,)]}, asks_itself='Nums'),
+  # two predicates grounded to one table: D reads C's table (@Ground(D, C)) and is reached before C
+  dict(name='alias_reads_owner_table', attach='logica_home',
+       text='@AttachDatabase("logica_home", "FILE");\n@Ground(C);\n@Ground(D, C);\n' + FACTS +
+            'C(x) :- T(x, y), x > 0;\nReport() += 1 :- D(x), C(x);\nCnt() += 1 :- C(x);\n',
+       tables={'C': [(1,), (1,), (2,)]}, preds={'Report': [(5,)], 'Cnt': [(3,)]}, asks_itself='C'),
+  # two grounded predicates of one run share a WITH-compiled helper that is built on another WITH-compiled helper
+  dict(name='nested_with_helpers_two_grounded', attach='logica_home',
+       text='@AttachDatabase("logica_home", "FILE");\n@Ground(P);\n@Ground(R);\n' + FACTS +
+            'Big(x) distinct :- T(x, y), x > 0;\nBigger(x) distinct :- Big(x), x > 0;\nP(x) :- Bigger(x), x < 4;\n'
+            'R(x, y) :- P(x), Bigger(y), y >= x;\nTotal() += 1 :- R(x, y);\n',
+       tables={'P': [(1,), (2,)], 'R': [(1, 1), (1, 2), (2, 2)]}, preds={'Total': [(3,)]}, asks_itself='P'),
 ]
 
 
